@@ -46,13 +46,20 @@ def _cfg(res):
 
 # ============================================================================================ oracle
 def _finding_for(kind, params, a, b, n, via):
+    if kind == "cgmy" and params["y"] < 0 and (a == 0 or b == 0 or a < 0 < b) and n == 0:
+        return "F-C09-4"
     if via == "xn" and kind == "vg":
         return "F-C09-3" if n >= 1 else "F-C09-5"
     if via == "xn" and n == 0:
         return "F-C09-1"
-    if kind == "cgmy" and params["y"] < 0 and (a == 0 or b == 0 or a < 0 < b):
-        return "F-C09-4"
     return None
+
+
+def _quad_route(kind, n, via):
+    """does the implementation answer through scipy.integrate.quad (default epsabs = epsrel = 1.49e-8)?"""
+    if n >= 3 and kind != "vg":
+        return True
+    return kind == "cgmy" and n == 2
 
 
 def _check_one(res, kind, params, nu, a, b, n, via, ikind, trunc=None):
@@ -80,7 +87,12 @@ def _check_one(res, kind, params, nu, a, b, n, via, ikind, trunc=None):
                       f"raises {type(e).__name__} on an interval where the integral is finite", rep)
         return
     res.count(case, nontrivial=a != b, kind=f"oracle {kind} {via}")
-    if not L.close(val, ref):
+    quad = _quad_route(kind, n, via)
+    if quad:
+        res.bump("oracle_route", "scipy.quad fallback (tolerance 1e-6 rel + 1e-7 abs)")
+    else:
+        res.bump("oracle_route", "closed form (tolerance 5e-8 rel + 1e-10 abs)")
+    if not (L.close(val, ref, rel=1e-6, ab=1e-7) if quad else L.close(val, ref)):
         rep["got"] = val
         res.violation(f"{kind}{' (truncated)' if trunc else ''}: closed-form integral of x^{n} nu differs from the quadrature of the "
                       f"model's own density (route {via})", rep)
@@ -125,7 +137,7 @@ def _oracle(res, rng):
                 except Exception:
                     continue  # reported by the sweep above
                 res.count(("add", kind, tuple(sorted(params.items())), a, b, c, n), kind="oracle additivity")
-                if not L.close(tot, l1 + l2):
+                if not (L.close(tot, l1 + l2, rel=1e-6, ab=2e-7) if _quad_route(kind, n, "xn") else L.close(tot, l1 + l2)):
                     rep = dict(kind="additivity", model=kind, params=params, a=a, b=b, c=c, n=n, whole=tot, parts=[l1, l2])
                     fid = _finding_for(kind, params, a, c, n, "xn")
                     if fid:
@@ -133,7 +145,7 @@ def _oracle(res, rng):
                     res.violation(f"{kind}: integrate_against_xn is not additive over adjacent intervals", rep)
                 sgn_ok = True
                 for (u, v, val) in ((a, b, l1), (b, c, l2), (a, c, tot)):
-                    eps = 1e-9 * max(1.0, abs(val))
+                    eps = 1e-9 * max(1.0, abs(val)) + (2e-7 if _quad_route(kind, n, "xn") else 0.0)
                     if n % 2 == 0 and val < -eps:
                         sgn_ok = False
                     if n % 2 == 1 and u >= 0 and val < -eps:
@@ -248,8 +260,13 @@ def _trunc_cases(res, rng, per_group):
         t = TruncatedLevyMeasure(None, (l, r))
         aa, bb = t._truncated_interval(a, b)
         stmt = f"truncated_interval {rlit(l)} {rlit(r)} {rlit(a)} {rlit(b)} = ({rlit(aa)}, {rlit(bb)})"
-        proof = ("rewrite truncated_interval_eq. unfold Rmax, Rmin. "
-                 "repeat match goal with |- context [Rle_dec ?x ?y] => destruct (Rle_dec x y); try (exfalso; lra) end; f_equal; lra.")
+        m1 = min(a, r)
+        m2 = max(b, l)
+        steps = [f"rewrite (Rmin_{'left' if a <= r else 'right'} {rlit(a)} {rlit(r)}) by lra.",
+                 f"rewrite (Rmax_{'left' if m1 >= l else 'right'} {rlit(m1)} {rlit(l)}) by lra.",
+                 f"rewrite (Rmax_{'left' if b >= l else 'right'} {rlit(b)} {rlit(l)}) by lra.",
+                 f"rewrite (Rmin_{'left' if m2 <= r else 'right'} {rlit(m2)} {rlit(r)}) by lra."]
+        proof = "rewrite truncated_interval_eq. " + " ".join(steps) + " reflexivity."
         cases.append(Case(("trunc", l, r, a, b), stmt, proof, dict(model="truncated_interval", l=l, r=r, a=a, b=b, impl=[aa, bb])))
         res.count(("coq-trunc", l, r, a, b), kind="coq truncated_interval")
     return cases
